@@ -32,7 +32,7 @@ na = [{"property_id": p["id"], "reason": "check not built yet in this session (w
       for p in props if p["id"] not in CLAIMED]
 manifest = {
     "version": 1,
-    "setup_cmd": "/venv/bin/python -c 'import hypothesis' 2>/dev/null || /venv/bin/pip install --no-index --find-links /opt/veriftools/wheels hypothesis",
+    "setup_cmd": "(/venv/bin/python -c 'import hypothesis' 2>/dev/null || /venv/bin/pip install --no-index --find-links /opt/veriftools/wheels hypothesis) && (/venv/bin/pip install -q --no-index --find-links /opt/veriftools/wheels --target /verif/.deps atheris >/dev/null 2>&1 || echo 'atheris not installed: the coverage-guided part of the thorough tier will be skipped')",
     "hooks": {
         "guard": "FINAM_UFZ_FINAM_VERIF",
         "enable": "no source hooks exist: checks import $VERIF_REPO/src (default /repo/src) directly; ./check exports FINAM_UFZ_FINAM_VERIF=1 but finam never reads it",
@@ -44,7 +44,12 @@ manifest = {
         "name": "vf",
         "path": "vf/runner.py",
         "serves_properties": sorted(CLAIMED),
-        "kind_free_text": "property-based testing: Hypothesis-generated cases / operation sequences and completely enumerated finite sub-spaces, each decided against an explicit reference model, differential or round trip written independently of finam; shrunk failures become JSON replay files",
+        "kind_free_text": "property-based testing and fuzzing: Hypothesis-generated cases / operation sequences and completely enumerated finite sub-spaces, each decided against an explicit reference model, differential or round trip written independently of finam; shrunk failures become JSON replay files",
+    }, {
+        "name": "vf-fuzz",
+        "path": "vf/fuzz.py",
+        "serves_properties": ["C01", "C02", "C04", "C06", "C19"],
+        "kind_free_text": "coverage-guided fuzzing (atheris/libFuzzer, finam instrumented) in the thorough tier: the fuzzer's bytes are decoded into compositions / shapes / topologies by the same Hypothesis strategies (fuzz_one_input) and judged by the same oracle inside the target",
     }],
     "checks": checks,
     "notes": "All checks: ./check <ID> --tier quick|thorough; VERIF_SEED selects the Hypothesis seeds; exit 2 = harness error/inconclusive. Genuine defects found and repaired are listed in known_findings.json (status fixed) with their replay files under replays/.",
